@@ -39,12 +39,15 @@ FUNCS = [
     ("field_header_disambiguated", "gapic/schema/wrappers.py", "FieldHeader.disambiguated", [("raw", "Str")]),
     ("routing_param_disambiguated_field", "gapic/schema/wrappers.py", "RoutingParameter.disambiguated_field", [("field", "Str")]),
     ("client_method_name", "gapic/schema/wrappers.py", "Method.client_method_name", [("name", "Str"), ("is_internal", "Bool")]),
+    ("sort_lines", "gapic/utils/lines.py", "sort_lines", []),
 ]
 
 TABLES = {"RESERVED_NAMES": "reservedNames", "kwlist": "pyKeywords"}       # module-level tables available as Pinned.<name> : List String
 
 TY = {"str": "Str", "int": "Int", "bool": "Bool"}
-LEAN_TY = {"Str": "Str", "Int": "Int", "Bool": "Bool", "ListStr": "List Str"}
+LEAN_TY = {"Str": "Str", "Int": "Int", "Bool": "Bool", "ListStr": "List Str", "SetStr": "List Str"}
+# "SetStr": a Python set of str, represented by a duplicate-free list; the only thing a translated function may do with it is
+# `sorted(...)` (its iteration order is unspecified) or a truth test
 
 
 def _find_func(tree, qual):
@@ -102,7 +105,7 @@ class Tr:
         t, ty = self.expr(e)
         if ty == "Bool":
             return t
-        if ty in ("Str", "ListStr"):
+        if ty in ("Str", "ListStr", "SetStr"):
             return f"(truthy {t})"
         if ty == "Int":
             return f"({t} != 0)"
@@ -174,6 +177,8 @@ class Tr:
                 else:
                     raise Refused("f-string conversion / format spec")
             return "(" + " ++ ".join(parts or ["([] : Str)"]) + ")", "Str"
+        if isinstance(e, (ast.GeneratorExp, ast.ListComp)):
+            return self.comp(e)
         if isinstance(e, ast.Subscript):
             return self.subscript(e)
         if isinstance(e, ast.Call):
@@ -261,6 +266,14 @@ class Tr:
                 return t, "Str"
             if f.id in ("tuple", "list") and len(e.args) == 1 and isinstance(e.args[0], (ast.GeneratorExp, ast.ListComp)):
                 return self.comp(e.args[0])
+            if f.id == "set" and len(e.args) == 1:
+                t, ty = self.comp(e.args[0]) if isinstance(e.args[0], (ast.GeneratorExp, ast.ListComp)) else self.expr(e.args[0])
+                if ty != "ListStr": raise Refused("set() of " + ty)
+                return f"(dedup {t})", "SetStr"
+            if f.id == "sorted" and len(e.args) == 1:
+                t, ty = self.comp(e.args[0]) if isinstance(e.args[0], (ast.GeneratorExp, ast.ListComp)) else self.expr(e.args[0])
+                if ty not in ("ListStr", "SetStr"): raise Refused("sorted() of " + ty)
+                return f"(sortStr {t})", "ListStr"
             if f.id in self.known:
                 sig = self.known[f.id]
                 lean_name = sig.get("lean", f.id)
@@ -378,8 +391,9 @@ def translate_one(key, rel, qual, self_attrs, known):
     tr = Tr(tree, fn, self_attrs, known)
     params = []
     a = fn.args
-    if a.vararg or a.kwarg or a.kwonlyargs or a.defaults or a.posonlyargs:
+    if a.vararg or a.kwarg or a.kwonlyargs or a.posonlyargs:
         raise Refused("parameter kinds")
+    # (default values are ignored: the translated function takes every parameter explicitly)
     for p in a.args:
         if p.arg == "self":
             continue
